@@ -201,7 +201,8 @@ def unzstdRaw (bs : Bytes) : Option Bytes :=
     | [] => none
     | d :: r => unzBlocks (r.length + 1) (r.drop (fcsLen (d.toNat / 64)))
 
-theorem zContentSize_some {f n : Nat} {cs : Bytes} (h : zContentSize f n = some cs) : f ≤ 3 ∧ cs.length = fcsLen f := by
+theorem zContentSize_some {f n : Nat} {cs : Bytes} (h : zContentSize f n = some cs) :
+    f ≤ 4 ∧ cs.length = fcsLen (if f = 4 then 0 else f) := by
   unfold zContentSize at h
   unfold fcsLen
   by_cases h0 : f = 0
@@ -228,7 +229,12 @@ theorem zContentSize_some {f n : Nat} {cs : Bytes} (h : zContentSize f n = some 
           split at h
           · cases h; simp [leBytes_length]
           · cases h
-        · simp [h0, h1, h2, h3] at h
+        · by_cases h4 : f = 4
+          · subst h4
+            simp at h
+            subst h
+            simp
+          · simp [h0, h1, h2, h3, h4] at h
 
 theorem unzstdRaw_zstdRaw (f : Nat) (plan : List ZBlock) (data comp : Bytes) (h : zstdRaw f plan data = some comp) :
     unzstdRaw comp = some data := by
@@ -242,8 +248,12 @@ theorem unzstdRaw_zstdRaw (f : Nat) (plan : List ZBlock) (data comp : Bytes) (h 
       simp only [hcs, hbl, Option.some.injEq] at h
       subst h
       obtain ⟨hf, hl⟩ := zContentSize_some hcs
-      have hd : (UInt8.ofNat (f * 64 + 32)).toNat / 64 = f := by
-        rw [UInt8.toNat_ofNat']; omega
+      have hd : (zDescriptor f).toNat / 64 = (if f = 4 then 0 else f) := by
+        unfold zDescriptor
+        by_cases h4 : f = 4
+        · simp [h4]
+        · simp only [h4, if_false]
+          rw [UInt8.toNat_ofNat']; omega
       have hfuel := zBlocks_length plan data bl hbl
       unfold unzstdRaw
       simp only [List.cons_append, List.nil_append, List.take_succ_cons, List.take_zero, List.drop_succ_cons, List.drop_zero,
